@@ -3,12 +3,14 @@ octet-vs-code-point pairing of printers and parsers, generic (\\#) form handling
 from __future__ import annotations
 
 import ast
+import re
 
 from engine.callgraph import Resolver
 from engine.cfg import CFG, normalise_compare, atoms, int_bound_gt, int_bound_lt
 from engine.escape import Escape
 from engine.guards import make_guard
 from engine.model import src, stmt_key, dotted, AnalysisError, walk_no_nested
+from engine import pat
 from engine.util import own_nodes, calls_with_nodes, where
 
 RULES = {
@@ -28,23 +30,23 @@ INF = float("inf")
 
 # packed values whose range needs an argument the interval evaluator cannot make
 EXC_WIDTH = {
-    ("dns.rdtypes.ANY.AMTRELAY.AMTRELAY._to_wire", "relay_type"): "relay type is 0..3 (Gateway._check) OR-ed with a validated bool << 7: <= 0x83",
+    ("dns.rdtypes.ANY.AMTRELAY.AMTRELAY._to_wire", "arg 2 of '!BB'"): "relay type is 0..3 (Gateway._check) OR-ed with a validated bool << 7: <= 0x83",
     ("dns.rdtypes.IN.IPSECKEY.IPSECKEY._to_wire", "self.gateway_type"): "gateway type comes from Gateway(...) which validates it with _as_uint8 and restricts it to 0..3",
-    ("dns.rdtypes.IN.NAPTR._write_string", "l"): "called only with NAPTR flags/service/regexp, each validated with max_length=255",
+    ("dns.rdtypes.IN.NAPTR._write_string", "arg 1 of '!B'"): "called only with NAPTR flags/service/regexp, each validated with max_length=255",
 
-    ("dns.rdtypes.ANY.LOC.LOC._to_wire", "size"): "_encode_size returns base*16+exponent with base, exponent <= 9 (<= 0x99) or raises SyntaxError in __init__... value computed from a validated float",
-    ("dns.rdtypes.ANY.LOC.LOC._to_wire", "hprec"): "same as size",
-    ("dns.rdtypes.ANY.LOC.LOC._to_wire", "vprec"): "same as size",
-    ("dns.rdtypes.ANY.LOC.LOC._to_wire", "latitude"): "0x80000000 +/- milliseconds with |degrees| <= 90 checked by _check_coordinate_list: within 32 bits",
-    ("dns.rdtypes.ANY.LOC.LOC._to_wire", "longitude"): "0x80000000 +/- milliseconds with |degrees| <= 180 checked by _check_coordinate_list: within 32 bits",
-    ("dns.rdtypes.IN.APL.APLItem.to_wire", "l"): "address is at most 16 octets (or validated max_length=127) and asserted < 128 before the negation bit is OR-ed in",
+    ("dns.rdtypes.ANY.LOC.LOC._to_wire", "arg 2 of '!BBBBIII'"): "_encode_size returns base*16+exponent with base, exponent <= 9 (<= 0x99) or raises SyntaxError in __init__... value computed from a validated float",
+    ("dns.rdtypes.ANY.LOC.LOC._to_wire", "arg 3 of '!BBBBIII'"): "same as size",
+    ("dns.rdtypes.ANY.LOC.LOC._to_wire", "arg 4 of '!BBBBIII'"): "same as size",
+    ("dns.rdtypes.ANY.LOC.LOC._to_wire", "arg 5 of '!BBBBIII'"): "0x80000000 +/- milliseconds with |degrees| <= 90 checked by _check_coordinate_list: within 32 bits",
+    ("dns.rdtypes.ANY.LOC.LOC._to_wire", "arg 6 of '!BBBBIII'"): "0x80000000 +/- milliseconds with |degrees| <= 180 checked by _check_coordinate_list: within 32 bits",
+    ("dns.rdtypes.IN.APL.APLItem.to_wire", "arg 3 of '!HBB'"): "address is at most 16 octets (or validated max_length=127) and asserted < 128 before the negation bit is OR-ed in",
     ("dns.rdtypes.IN.APL.APLItem.to_wire", "self.prefix"): "validated by _as_int(prefix, 0, 32|128) or _as_uint8 on every constructor branch",
-    ("dns.rdtypes.util.Bitmap.to_wire", "window"): "Bitmap.__init__ rejects window > 256... and from_rdtypes derives windows from 16-bit types (<= 255)",
-    ("dns.rdtypes.util.Bitmap.to_wire", "len(bitmap)"): "Bitmap.__init__ rejects bitmaps longer than 32 octets",
-    ("dns.rdtypes.svcbbase._StringList.to_wire", "len(id)"): "each id is validated with max_length=255 in _StringList.__init__",
-    ("dns.rdtypes.svcbbase.SVCBBase._to_wire", "key"): "parameter keys are ParamKey values validated to 16 bits",
-    ("dns.rdtypes.svcbbase.MandatoryParam.to_wire", "key"): "keys are validated ParamKey values (16 bits)",
-    ("dns.rdtypes.ANY.OPT.OPT._to_wire", "opt.otype"): "OptionType.make validates 0..65535",
+    ("dns.rdtypes.util.Bitmap.to_wire", "arg 1 of '!BB'"): "Bitmap.__init__ rejects window > 256... and from_rdtypes derives windows from 16-bit types (<= 255)",
+    ("dns.rdtypes.util.Bitmap.to_wire", "arg 2 of '!BB'"): "Bitmap.__init__ rejects bitmaps longer than 32 octets",
+    ("dns.rdtypes.svcbbase._StringList.to_wire", "arg 1 of '!B'"): "each id is validated with max_length=255 in _StringList.__init__",
+    ("dns.rdtypes.svcbbase.SVCBBase._to_wire", "arg 1 of '!H'"): "parameter keys are ParamKey values validated to 16 bits",
+    ("dns.rdtypes.svcbbase.MandatoryParam.to_wire", "arg 1 of '!H'"): "keys are validated ParamKey values (16 bits)",
+    ("dns.rdtypes.ANY.OPT.OPT._to_wire", "arg 1 of '!HH'"): "OptionType.make validates 0..65535",
     ("dns.edns.EDEOption.to_wire", "self.code"): "EDECode.make validates 0..65535",
 }
 # text producers: implicit-raise candidates that cannot fire
@@ -53,7 +55,7 @@ EXC_TEXT = {
     ("dns.rdata._base64ify", "separator.decode()"): "separator is this module's own b' ' style constant",
     ("dns.rdata._hexify", "separator.decode()"): "separator is this module's own constant",
     ("dns.rdata._wordbreak", "data.decode()"): "data is the ASCII output of hexlify/b64encode",
-    ("dns.rdtypes.svcbbase.SVCBBase.to_styled_text", "self.params[key]"): "key iterates sorted(self.params)",
+    ("dns.rdtypes.svcbbase.SVCBBase.to_styled_text", "self.params[_]"): "key iterates sorted(self.params)",
 
     ("dns.rdtypes.ANY.GPOS.GPOS.to_styled_text", "self.latitude.decode()"): "GPOS fields are validated to be ASCII float syntax by _validate_float_string",
     ("dns.rdtypes.ANY.GPOS.GPOS.to_styled_text", "self.longitude.decode()"): "GPOS fields are validated to be ASCII float syntax",
@@ -252,6 +254,36 @@ ABSOLUTE_NAME_OK = {("dns.rdtypes.ANY.TKEY.TKEY.from_text", "tok.get_name"): "th
 VALIDATOR_BOUNDS = {"_as_uint8": (0, 0xFF), "_as_uint16": (0, 0xFFFF), "_as_uint32": (0, 0xFFFFFFFF), "_as_uint48": (0, 0xFFFFFFFFFFFF), "_as_int": ("low", "high"), "_as_bytes": (None, "max_length")}
 
 
+def _feeding_local(init, ft, fld):
+    """The local of from_text that ends up in field `fld`: position of the constructor parameter that __init__ stores into self.<fld>,
+    looked up in the `cls(...)` call of from_text."""
+    if init is None:
+        return None
+    params = [p for p in init.params() if p != "self"]
+    src_param = None
+    for n in ast.walk(init.node):
+        tgt = None
+        if isinstance(n, ast.Assign) and len(n.targets) == 1:
+            tgt = n.targets[0]
+        elif isinstance(n, ast.AnnAssign) and n.value is not None:
+            tgt = n.target
+        if isinstance(tgt, ast.Attribute) and src(tgt.value) == "self" and tgt.attr == fld:
+            names = [x.id for x in ast.walk(n.value) if isinstance(x, ast.Name) and x.id in params]
+            if names:
+                src_param = names[0]
+    if src_param is None:
+        return None
+    i = params.index(src_param)
+    for c in ast.walk(ft.node):
+        if isinstance(c, ast.Call) and isinstance(c.func, ast.Name) and c.func.id == "cls" and len(c.args) > i and isinstance(c.args[i], ast.Name):
+            return c.args[i].id
+        if isinstance(c, ast.Call) and isinstance(c.func, ast.Name) and c.func.id == "cls":
+            for k in c.keywords:
+                if k.arg == src_param and isinstance(k.value, ast.Name):
+                    return k.value.id
+    return None
+
+
 def check_validators(model, rep, rule):
     """The validators are the trusted base of the interval evaluation (and of every `assert l < 256` in an encoder): check that each
     one raises unless the value *it returns* lies in the assumed interval."""
@@ -310,6 +342,7 @@ def run(model, rep, tier):
     n_args = 0
     for (f, ci) in _encoders(model):
         env = {}
+        fn_locals = {x.id for x in ast.walk(f.node) if isinstance(x, ast.Name) and isinstance(x.ctx, ast.Store)}
         # local definitions in source order (straight-line approximation; re-assignments replace)
         body_nodes = [n for st in f.node.body for n in [st] + list(walk_no_nested(st))]
         asserts = {}
@@ -338,16 +371,21 @@ def run(model, rep, tier):
                 if len(chars) != len(n.args) - 1 or any(c not in WIDTH for c in chars):
                     rep.blind("R-05.1", f.qualname, where(f, n), f"struct format {fmt!r} not understood", stmt=stmt_key(n))
                     continue
-                for ch, a in zip(chars, n.args[1:]):
+                for k_arg, (ch, a) in enumerate(zip(chars, n.args[1:])):
                     n_args += 1
                     hi_allowed = (1 << WIDTH[ch]) - 1
                     r = iv.eval(f, ci, a, env)
                     label = " ".join(src(a).split())
-                    st = f"pack {ch}: {label}"
+                    # obligations are keyed by role, not by the spelling of a local: expressions over locals are named by position
+                    if any(isinstance(x, ast.Name) and x.id in fn_locals for x in ast.walk(a)):
+                        key_label = f"arg {k_arg + 1} of {fmt!r}"
+                    else:
+                        key_label = label
+                    st = f"pack {ch}: {key_label}"
                     if r is not None and isinstance(a, ast.Name) and a.id in asserts and r[1] > asserts[a.id]:
                         # an `assert l < 256` guards the pack: if l is unbounded the assert (not struct) fails
                         if r[1] > hi_allowed or r[1] == INF:
-                            ex = EXC_WIDTH.get((f.qualname, label))
+                            ex = EXC_WIDTH.get((f.qualname, key_label))
                             if ex:
                                 rep.excepted("R-05.1", f.qualname, where(f, n), ex, stmt=st)
                             else:
@@ -355,8 +393,8 @@ def run(model, rep, tier):
                             continue
                     if r is not None and r[0] >= 0 and r[1] <= hi_allowed:
                         rep.ok("R-05.1", f.qualname, where(f, n), f"`{label}` in [{r[0]}, {r[1]}] fits '{ch}'", stmt=st)
-                    elif (f.qualname, label) in EXC_WIDTH:
-                        rep.excepted("R-05.1", f.qualname, where(f, n), EXC_WIDTH[(f.qualname, label)], stmt=st)
+                    elif (f.qualname, key_label) in EXC_WIDTH:
+                        rep.excepted("R-05.1", f.qualname, where(f, n), EXC_WIDTH[(f.qualname, key_label)], stmt=st)
                     else:
                         rng = f"[{r[0]}, {r[1]}]" if r else "unbounded/unknown"
                         rep.bad("R-05.1", f.qualname, where(f, n), f"`{label}` ({rng}) is packed into '{ch}' (0..{hi_allowed}) without a validator that bounds it: a record the constructor accepts can fail to encode (struct.error)", stmt=st)
@@ -404,7 +442,10 @@ def run(model, rep, tier):
                             found[(k[0], o.stmt)] = o
         if not found:
             rep.ok("R-05.1t", f.qualname, where(f, f.node), "no operation that can raise for a validated field", stmt="producer", nontrivial=False)
+        f_locals = {x.id for x in ast.walk(f.node) if isinstance(x, ast.Name) and isinstance(x.ctx, ast.Store)} - set(f.params())
         for (exc, stext), o in sorted(found.items()):
+            # keyed by role: the spelling of a local never matters
+            stext = re.sub(r"(?<![\w.])([A-Za-z_]\w*)", lambda m_: "_" if m_.group(1) in f_locals else m_.group(1), stext)
             st = f"{exc} <- {stext}"
             # decode() of an ASCII-only producer
             if exc == "UnicodeError?" and any(p + "(" in stext for p in ASCII_PRODUCERS):
@@ -433,9 +474,9 @@ def run(model, rep, tier):
         if isinstance(n, ast.If):
             nc = normalise_compare(n.test)
             if nc[0] == "and":
-                lo = [int_bound_gt(a) for a in atoms(nc) if int_bound_gt(a) and int_bound_gt(a)[0] == "c"]
-                hi = [int_bound_lt(a) for a in atoms(nc) if int_bound_lt(a) and int_bound_lt(a)[0] == "c"]
-                if lo and hi:
+                lo = [int_bound_gt(a) for a in atoms(nc) if int_bound_gt(a) and int_bound_gt(a)[0].isidentifier()]
+                hi = [int_bound_lt(a) for a in atoms(nc) if int_bound_lt(a) and int_bound_lt(a)[0].isidentifier()]
+                if lo and hi and lo[0][0] == hi[0][0]:
                     raw_lo, raw_hi = lo[0][1], hi[0][1]
         if isinstance(n, ast.FormattedValue) and n.format_spec is not None:
             fmts.append(src(n.format_spec).lstrip("f"))
@@ -470,14 +511,16 @@ def run(model, rep, tier):
     for qn in ("dns.tokenizer.Token.unescape", "dns.tokenizer.Token.unescape_to_bytes"):
         f = model.func(qn)
         t = " ".join(src(f.node).split())
-        rep.check("codepoint = int(c) * 100 + int(c2) * 10 + int(c3)" in t and "if codepoint > 255: raise dns.exception.SyntaxError" in t, "R-05.2", qn, where(f, f.node), "\\DDD read as exactly 3 digits, <= 255",
+        e3 = pat.Env()
+        rep.check(pat.has(f.node, "__cp = int(__c1) * 100 + int(__c2) * 10 + int(__c3)\nif __cp > 255:\n    raise dns.exception.SyntaxError", e3) and len({e3["__c1"], e3["__c2"], e3["__c3"]}) == 3, "R-05.2", qn, where(f, f.node), "\\DDD read as exactly 3 digits, <= 255",
                   "\\DDD decoding changed", stmt="3-digits-read")
     ub = model.func("dns.tokenizer.Token.unescape_to_bytes")
     t = " ".join(src(ub.node).split())
-    rep.check("unescaped += b'%c' % codepoint" in t or "bytes([codepoint])" in t or "struct.pack" in t, "R-05.2", ub.qualname, where(ub, ub.node), "a decimal escape yields exactly one octet", "unescape_to_bytes no longer yields one octet per \\DDD", stmt="one-octet")
+    e1 = pat.Env()
+    rep.check(pat.has(ub.node, "__cp = int(__c1) * 100 + int(__c2) * 10 + int(__c3)", e1) and (pat.has(ub.node, "__u += b'%c' % __cp", e1) or pat.has(ub.node, "__u += bytes([__cp])", e1) or pat.has(ub.node, "__u += struct.pack('!B', __cp)", e1)), "R-05.2", ub.qualname, where(ub, ub.node), "a decimal escape yields exactly one octet", "unescape_to_bytes no longer yields one octet per \\DDD", stmt="one-octet")
     tg = model.func("dns.tokenizer.Tokenizer.get")
     t = " ".join(src(tg.node).split())
-    rep.check("elif self.quoting and c == '\\n': raise dns.exception.SyntaxError('newline in quoted string')" in t, "R-05.2", tg.qualname, where(tg, tg.node), "a raw newline inside quotes is refused", "newline handling in quoted strings changed", stmt="newline-in-quotes")
+    rep.check(pat.has(tg.node, "if self.quoting and __c == '\\n':\n    raise dns.exception.SyntaxError(...)"), "R-05.2", tg.qualname, where(tg, tg.node), "a raw newline inside quotes is refused", "newline handling in quoted strings changed", stmt="newline-in-quotes")
 
     # ---------------------------------------------------------------- R-05.3
     n_pairs = 0
@@ -496,7 +539,8 @@ def run(model, rep, tier):
         for fld in sorted(set(fields)):
             n_pairs += 1
             # the local of from_text that feeds this field: same name (repo convention), else positional via __init__
-            defs = [n.value for n in walk_no_nested(ft.node) if isinstance(n, ast.Assign) and any(isinstance(t, ast.Name) and t.id == fld for t in n.targets)]
+            local = _feeding_local(init, ft, fld) or fld
+            defs = [n.value for n in walk_no_nested(ft.node) if isinstance(n, ast.Assign) and any(isinstance(t, ast.Name) and t.id == local for t in n.targets)]
             con = f"{ci.qualname}.{fld}"
             if not defs:
                 rep.blind("R-05.3", con, where(ft, ft.node), f"cannot find how from_text obtains `{fld}`", stmt="pairing")
@@ -521,11 +565,13 @@ def run(model, rep, tier):
     ft = model.func("dns.rdata.from_text")
     ws = [w for w in ast.walk(ft.node) if isinstance(w, ast.With) and any("ExceptionWrapper" in src(i.context_expr) for i in w.items)]
     t = " ".join(src(ws[0]).split()) if ws else ""
-    rep.check(bool(ws) and "GenericRdata.from_text" in t and "from_wire(rdclass, rdtype, grdata.data, 0, len(grdata.data), origin)" in t and "rwire != grdata.data" in t and "rwire = rdata.to_wire(origin=origin)" in t, "R-05.4", ft.qualname, where(ft, ft.node),
+    eg = pat.Env()
+    rep.check(bool(ws) and pat.has(ws[0], "__g = GenericRdata.from_text(...)\n__rd = from_wire(rdclass, rdtype, __g.data, 0, len(__g.data), origin)\n__rw = __rd.to_wire(origin=origin)\nif __rw != __g.data:\n    raise dns.exception.SyntaxError(...)", eg), "R-05.4", ft.qualname, where(ft, ft.node),
               "\\# for a known type: generic parse, re-decode with the type's reader, re-encode and compare, all inside the wrapper", "generic-form handling for known types changed", stmt="generic-known")
     gt = model.func("dns.rdata.GenericRdata.from_text")
     t = " ".join(src(gt.node).split())
-    rep.check("token.value != '\\\\#'" in t and "length = tok.get_int()" in t and "if len(data) != length: raise dns.exception.SyntaxError" in t, "R-05.4", gt.qualname, where(gt, gt.node),
+    e2 = pat.Env()
+    rep.check(pat.has(gt.node, "__tk = tok.get()\nif not __tk.is_identifier() or __tk.value != '\\\\#':\n    raise dns.exception.SyntaxError(...)\n__len = tok.get_int()", e2) and pat.has(gt.node, "if len(__data) != __len:\n    raise dns.exception.SyntaxError(...)\nreturn cls(rdclass, rdtype, __data)", e2), "R-05.4", gt.qualname, where(gt, gt.node),
               "generic form = \\# length hex, with the length checked", "generic form parsing changed", stmt="generic-shape")
     gs = model.func("dns.rdata.GenericRdata.to_styled_text")
     rep.check("\\\\# " in src(gs.node) and "len(self.data)" in src(gs.node), "R-05.4", gs.qualname, where(gs, gs.node), "generic text = \\# length hex", "generic text production changed", stmt="generic-text")
@@ -545,19 +591,20 @@ def run(model, rep, tier):
                     m = model.lookup_method(model.classes[tgt], "from_text")
                     if m is None or "relativize_to" not in m.params():
                         continue
-                elif src(c.func.value) != "cls":
+                elif not (isinstance(c.func.value, ast.Name) and (c.func.value.id == "cls" or any(isinstance(a_, ast.Assign) and src(a_.targets[0]) == c.func.value.id and "get_rdata_class" in src(a_.value) for a_ in ast.walk(f.node)))):
                     continue
             n_nm += 1
             passed = {src(a) for a in c.args} | {src(k.value) for k in c.keywords}
             key = (f.qualname, src(c.func))
+            role = ("<class>." + c.func.attr) if (c.func.attr == "from_text" and isinstance(c.func.value, ast.Name) and c.func.value.id not in ("cls",) and c.func.value.id[:1].islower()) else src(c.func)
             missing = [p for p in TRIPLE if p not in passed]
             if not missing:
-                rep.ok("R-05.6", f.qualname, where(f, c), f"`{src(c.func)}` receives origin, relativize, relativize_to", stmt="names " + src(c.func), nontrivial=False)
+                rep.ok("R-05.6", f.qualname, where(f, c), f"`{src(c.func)}` receives origin, relativize, relativize_to", stmt="names " + role, nontrivial=False)
             elif key in ABSOLUTE_NAME_OK:
-                rep.excepted("R-05.6", f.qualname, where(f, c), ABSOLUTE_NAME_OK[key], stmt="names " + src(c.func))
+                rep.excepted("R-05.6", f.qualname, where(f, c), ABSOLUTE_NAME_OK[key], stmt="names " + role)
             else:
                 rep.bad("R-05.6", f.qualname, where(f, c), f"`{src(c)[:70]}` does not pass {missing}: the name is relativized differently from the rest of the zone file "
-                        "(after a $ORIGIN that differs from the zone origin it silently denotes another name)", stmt="names " + src(c.func))
+                        "(after a $ORIGIN that differs from the zone origin it silently denotes another name)", stmt="names " + role)
     rep.floor("R-05.6", n_nm, 24)
 
     # ---------------------------------------------------------------- R-05.5
